@@ -55,7 +55,7 @@ def refSpectrumOp (j : Json) : R Json := do
   let ev ← qArr (← field j "evals")
   let eps ← qf j "eps"
   let vnorm ← toQ (fieldD j "vnorm" (Json.str "1"))
-  return Json.mkObj [("accept", Json.bool (fromReflectionAccepts eps ev.toList vnorm)),
+  return Json.mkObj [("accept", Json.bool (fromReflectionAcceptsRep eps ev.toList vnorm)),
     ("spectrum_ok", Json.bool (isReflSpectrum eps ev.toList)),
     ("argmin", match argminIdx ev.toList with | some i => Json.num (JsonNumber.fromNat i) | none => Json.null)]
 
